@@ -28,9 +28,10 @@ MANIFEST = {
             "of the table model = the declarative structure of the table, for every table), and the block is an item of C16_engine_is_ref(_table); "
             "the harness converts its transition sections into that syntax, so real = ref16 is checked on them inside in_grammar16. Restrictions of the "
             "nested grammar: no state tag inside a per-event block, at most one conditional tag on a line and no state/event tag on such a line, "
-            "alternative text closed. PARTIAL: the transition blocks of the shipped TEMPLATEStateMachine.py / TEMPLATEInternals.cs are outside "
-            "in_grammar16 (2 resp. 4 lines with a literal '<' or '>': '-> None:', \"<class '\", '/// <summary>', 'Exit<<<<X>>>>'); for those the engine "
-            "stays tied to the generator models by execution (C08/C10). The per-(template, table) conditions wf_elements16 follow from syntactic name conditions (C07_names_wf16 in Props/C07.v: non-empty alphanumeric element names, every block body line with a visible literal character). signature/member/documentation/attribute tags are not modelled. Values substituted must not contain '<' '>' (checked per case).",
+            "alternative text closed. Literal text may contain '<' '>' (lit_ok: no \"<<<\", not beginning with '<'; may end in '<' "
+            "directly before a tag: C16_literals_closed, C16_no_tag_without_open, C16_literal_no_match_position, C16_angle_literals), so the "
+            "transition blocks of the shipped TEMPLATEStateMachine.py / TEMPLATEInternals.cs are inside in_grammar16 (probed on the shipped "
+            "lines on every run). The per-(template, table) conditions wf_elements16 follow from syntactic name conditions (C07_names_wf16 in Props/C07.v: non-empty alphanumeric element names, every block body line with a visible literal character). signature/member/documentation/attribute tags are not modelled. Values substituted must not contain '<' '>' (checked per case).",
 }
 RULE = ("probe templates: 1-5 sections out of {plain text with blank runs and TABs, PER_STATE/EVENT/ACTION/GUARD/STRUCT/MSG/PROTOMSG block with "
         "1-3 body lines using the name tag of the block in its three case variants plus NUM/ALPH, PER_ACTION_SIGNATURE block, nested "
@@ -39,7 +40,7 @@ RULE = ("probe templates: 1-5 sections out of {plain text with blank runs and TA
         "interfaces; run through the real Generate.StateMachine / _PYTHON / _CSHARP; compared with the extracted model (tie) and with the "
         "independent Python reference expander (oracle). non-trivial = at least one block with at least one element")
 ASSUMPTIONS = [
-    "block bodies: literal text without '<' '>' and without block keywords, name tags of the block's own kind, NUM, ALPH; no whitespace-only "
+    "block bodies: literal text without \"<<<\" that does not begin with '<' (may end in '<' before a tag), without block keywords, name tags of the block's own kind, NUM, ALPH; no whitespace-only "
     "line inside a block (the engine drops them); spaces-only indentation of alternative-text lines",
     "transition lines mention at most one conditional tag (guard / action / next state / state-if-next-state) each",
     "identifiers [A-Z][A-Za-z0-9]* that contain no tag keyword; every row has a start state and an event",
@@ -213,10 +214,13 @@ def render_section(sec):
 
 
 # ---------------------------------------------------------------- generator of probe templates
-TEXT = ["int x = 0;", "// comment", "", "  ", "\tindented", "    return;", "#define A 1", "{", "}", "void f(a, b);", "x = y"]
+TEXT = ["int x = 0;", "// comment", "", "  ", "\tindented", "    return;", "#define A 1", "{", "}", "void f(a, b);", "x = y",
+        "    /// <summary>", "if (a < b) x << 1;", "std::vector<int> v; // ->", "<b>", "a >>> b"]
 
 
 def lit(rng):
+    if rng.random() < 0.2:      # literal '<' '>' next to tags: "Exit<<<<STATENAME>>>>()", "-> None:", "a << b"
+        return rng.choice([">", " -> ", "Exit<", ">()", " << ", "x<<", ">>", "List<", "> ", ">>>", " <b> ", "<", "<<<"])
     return rng.choice(["", " ", "  ", "void ", "(", ")", ";", "_", " = ", "// ", "E_", "on", ", ", "::", "{ ", " }"])
 
 
@@ -301,10 +305,10 @@ def wire16(secs):
             t += [["X", l[:-1]] for l in sec[1]]
         elif sec[0] == "elem":
             ib, ie = sec[3] if len(sec) > 3 else ("", "")
-            t.append(["B", sec[1], ib, ie, [segs_of(l) if isinstance(l, str) else l for l in sec[2]]])
+            t.append(["B", sec[1], ib, ie, [segs_of(l) if isinstance(l, str) else merge_lits(l) for l in sec[2]]])
         elif sec[0] == "sig":
             ib, ie = sec[2] if len(sec) > 2 else ("", "")
-            t.append(["S", ib, ie, [segs_of(l) if isinstance(l, str) else l for l in sec[1]]])
+            t.append(["S", ib, ie, [segs_of(l) if isinstance(l, str) else merge_lits(l) for l in sec[1]]])
         elif sec[0] == "trans":
             _k, s_pre, e_pre, g_body, e_post, s_post = sec
             ev = [["EL", segs_of(l)] for l in e_pre] + [["EG", "", "", [segs_of(l) for l in g_body]]] + [["EL", segs_of(l)] for l in e_post]
@@ -312,6 +316,19 @@ def wire16(secs):
         else:
             return None
     return t
+
+
+def merge_lits(segs):
+    """adjacent literal segments as one (the grammar's per-literal conditions are meant for maximal literals)"""
+    out = []
+    for g in segs:
+        if g[0] == "L" and out and out[-1][0] == "L":
+            out[-1] = ["L", out[-1][1] + g[1]]
+        elif g[0] == "L" and g[1] == "":
+            continue
+        else:
+            out.append(list(g))
+    return out
 
 
 def segs_of(line):
@@ -395,6 +412,29 @@ def colliding_signatures_case(ctx):
     return files, table
 
 
+SHIPPED_BLOCKS = [("statemachine_templates_py", "TEMPLATEStateMachine.py"), ("statemachine_templates_cs_winlinmac", "TEMPLATEInternals.cs")]
+
+
+def shipped_block_case(ctx, which):
+    """the per-state > per-event > per-transition block of a SHIPPED template (its last PER_STATETRANSITION block, the first-filter
+    name tags already substituted), as a probe template of its own: it must lie inside in_grammar16 (literal '<' '>' included)"""
+    d, fn = SHIPPED_BLOCKS[which]
+    ls = open(os.path.join(kj.REPO, "kojen", d, fn), encoding="utf-8").read().split("\n")
+    b = [i for i, l in enumerate(ls) if "PER_STATETRANSITION_BEGIN" in l][-1]
+    e = [i for i, l in enumerate(ls) if "PER_STATETRANSITION_END" in l][-1]
+    body = [l.replace("<<<STATEMACHINENAME>>>", "Probe").replace("<<<NAMESPACE>>>", "NS") + "\n" for l in ls[b + 1:e]]
+    eb = [i for i, l in enumerate(body) if "PER_EVENTTRANSITION_BEGIN" in l][0]
+    ee = [i for i, l in enumerate(body) if "PER_EVENTTRANSITION_END" in l][0]
+    gb = [i for i, l in enumerate(body) if "PER_GUARDTRANSITION_BEGIN" in l][0]
+    ge = [i for i, l in enumerate(body) if "PER_GUARDTRANSITION_END" in l][0]
+    sec = ("trans", body[:eb], body[eb + 1:gb], body[gb + 1:ge], body[ge + 1:ee], body[ee + 1:])
+    t = wire16([sec])
+    ctx.count("shipped_block_" + fn)
+    if ctx.km.call("d16.in_grammar16", t) != b"1":
+        ctx.violation("the transition block of the shipped %s is outside in_grammar16" % fn, {"section": [list(x) for x in sec[1:]], "finding_key": "c16-shipped-block"})
+    return {"probe_shipped_%s.txt" % fn.split(".")[-1]: [sec]}, None
+
+
 def e2e_cases(ctx, n):
     km = ctx.km
     for i in range(n):
@@ -403,6 +443,8 @@ def e2e_cases(ctx, n):
             directed = many_elements_case(ctx)
         elif i == 1:
             directed = colliding_signatures_case(ctx)
+        elif i in (2, 3, 4, 5):
+            directed = shipped_block_case(ctx, i % 2)
         nfiles = 1 if ctx.rng.random() < 0.7 else 2
         files = {"probe%d.txt" % j: [section(ctx.rng) for _ in range(ctx.rng.randint(1, 5))] for j in range(nfiles)}
         kind = ctx.rng.choice(e2e.KINDS)
